@@ -237,7 +237,9 @@ def _lost_obligations(qname, have, why):
     on the pinned tree and is not re-established now is reported as no longer proved (DESIGN 2.9: a violation
     without failing input).  On unchanged sources the same failure stays a checker problem (exit 2 / 3)."""
     from . import verify as _v
-    base = (_BASELINE.get('__functions__') or {}).get(qname)
+    fns = _BASELINE.get('__functions__') or {}
+    base = fns.get(qname) or fns.get(qname.split('#')[0]) or \
+        next((v for k, v in fns.items() if k.split('#')[0] == qname.split('#')[0]), None)
     if not base:
         return []
     changed = sorted((q or qname) for q, sha in base.items()
